@@ -62,6 +62,22 @@ class Pipeline:
                 return out
         raise AnchorMissing(f"{COMPILER}::Compiler.__init__ does not assign self.{attr}")
 
+    def mentions(self, node, text: str, depth: int = 2) -> bool:
+        """does `node` contain `text`, directly or through a private method of the compiler that it calls (a step of Compile
+        extracted into a helper)?"""
+        if text in unparse(node):
+            return True
+        if depth <= 0:
+            return False
+        for c in ast.walk(node):
+            if isinstance(c, ast.Call) and isinstance(c.func, ast.Attribute) and isinstance(c.func.value, ast.Name):
+                m = self.cls.methods.get(c.func.attr) or self.cls.methods.get("_" + self.cls.name + c.func.attr)
+                r = self.cls.find_method(c.func.attr)
+                m = m or (r[1] if r else None)
+                if m is not None and m.name not in ("Compile", "__init__") and self.mentions(m, text, depth - 1):
+                    return True
+        return False
+
     def pass_file(self, name: str) -> str:
         return f"nsl/passes/{name}.py"
 
@@ -148,11 +164,11 @@ class Pipeline:
             t = unparse(st)
             if isinstance(st, ast.For) and "astPasses" in t:
                 order.append("ast")
-            elif "LowerToIR.GetPass" in t:
+            elif self.mentions(st, "LowerToIR.GetPass"):
                 order.append("lower")
             elif isinstance(st, ast.For) and "irPasses" in t:
                 order.append("ir")
-            elif "GenerateWasm.GetPass" in t:
+            elif self.mentions(st, "GenerateWasm.GetPass"):
                 order.append("wasm")
         col.check(order[:3] == ["ast", "lower", "ir"], rule, f"{COMPILER}::Compiler.Compile stage order",
                   f"stages run in the order {order}", f"stage order is {order}; expected AST passes, lowering, IR passes", COMPILER, c)
